@@ -14,13 +14,13 @@ macro "frame_fs" : tactic => `(tactic|
         acPut_fs, getAttrOr_fs]; done)
     | split))
 
-theorem getAttr_fs' {s s' : St} {now : Nat} {n : Node} {r : Except Nat Attrs} (h : getAttr s now n = (s', r)) : s'.fs = s.fs := by
+theorem getAttr_fs' {s s' : St} {now : Nat} {n : Node} {r : Except Fs.Errno Attrs} (h : getAttr s now n = (s', r)) : s'.fs = s.fs := by
   have := getAttr_fs s now n; rw [h] at this; exact this
 
-theorem lookupPath_fs' {s s' : St} {now : Nat} {p : Bytes} {r : Except Nat Node} (h : lookupPath s now p = (s', r)) : s'.fs = s.fs := by
+theorem lookupPath_fs' {s s' : St} {now : Nat} {p : Bytes} {r : Except Fs.Errno Node} (h : lookupPath s now p = (s', r)) : s'.fs = s.fs := by
   have := lookupPath_fs s now p; rw [h] at this; exact this
 
-theorem readDir_fs' {s s' : St} {now : Nat} {d : Node} {r : Except Nat (List Node)} (h : readDir s now d = (s', r)) : s'.fs = s.fs := by
+theorem readDir_fs' {s s' : St} {now : Nat} {d : Node} {r : Except Fs.Errno (List Node)} (h : readDir s now d = (s', r)) : s'.fs = s.fs := by
   have := readDir_fs s now d; rw [h] at this; exact this
 
 theorem fillDirPlus_fs' {limit cookie : Nat} {s s' : St} {i used cnt : Nat} {l : List Node} {r : Fill Rfc.DirEntPlus}
